@@ -161,6 +161,14 @@ C20_Blocked == IsReq /\ ~Refused /\ TERMINATE \in RPre.flags /\ ~Restarts =>
 C20_Restart == RJudged /\ ~Refused /\ Ev.fresh /\ RPre.code = <<>> /\ RPre.path = <<>> /\ TERMINATE \notin RPre.flags /\ ~Ev.err /\ Ev.niter > 0 =>
                      Len(RPost.path) >= 1 /\ RPost.path[1] = Root
 
+\* ---- C06 at request level: whether a CROAK (or code that runs out) ends the session or goes to the catch node is decided by
+\*      what THIS request did with its input - a run that starts from the session as it was before the request and follows the
+\*      specification ends terminated / not terminated, at the same position, with the same client flags as the real one
+C06_ReqCtl == RJudged /\ ~Refused => /\ (TERMINATE \in RQ.e.s.flags) = (TERMINATE \in RPost.flags)
+                                      /\ NavProj(RQ.e.s) = NavProj(RPost)
+                                      /\ ClientFlags(RQ.e.s) = ClientFlags(RPost)
+                                      /\ RQ.cont = Ev.cont
+
 \* ---- C08: no panic, consistent session after every request, session can be saved and loaded
 C08_ReqNoPanic == Have /\ Ev.ev = "req" => Ev.panic = "" /\ Ev.fpanic = ""
 C08_ReqLevels  == IsReq /\ Ev.panic = "" /\ Levels(RPre) => Levels(RPost2)
